@@ -22,6 +22,7 @@ MUTANTS = [
     ("revert-can-parse-fix", "C08", r".", ["revert:58cc201"]),
     ("revert-urlpattern-baseless-input-fix", "C14", r".", ["revert:ca3b046"]),
     ("revert-urlpattern-dummy-url-limit-fix", "C13", r"crash", ["revert:6b1adb7"]),
+    ("revert-nfc-quick-check-fix", "C01", r"shortcut-divergence", ["revert:eb3e0c0"]),
     ("revert-avx512-ipv4-fix/C18", "C18", r"build-divergence", ["revert:2796561"]),
     ("revert-avx512-ipv4-fix/C01", "C01", r".", ["revert:2796561"]),
     ("ready-store-relaxed", "C13", r"data-race",
